@@ -19,6 +19,12 @@ Enumerated (quick is a sub-space of thorough; see cases()):
           file compare case-insensitively, [MS-CFB] 2.6.4; non-Excel producers write such spellings): FILEPASS at index 1 and last
           (thorough: every index) and the 4 other FILEPASS payloads = encrypted; plain workbook and the "all" look-alike = plain
   ppt     pptbin encrypted True / "keep_docprops" x layout x Current User stream vs plain
+          EDIT HISTORY ("hist", one letter per EARLIER save, oldest first: p = 28-byte UserEditAtom of a save without encryption, e = 32-byte
+          UserEditAtom with encryptSessionPersistIdRef): the document stream holds len(hist) + 1 PersistDirectoryAtom + UserEditAtom pairs
+          chained through offsetLastEdit, the current edit written last and referenced by the Current User stream.  Only the CURRENT edit
+          decides: every word over {p, e} before an encrypted save (True / keep_docprops) = encrypted; every word over {p} before a plain
+          save = plain.  x layout x Current User {present, absent, "notoken": present with the plain header token (encrypted saves only)}.
+          quick: 1..2 earlier saves, document 0; thorough: 1..3 earlier saves, documents 0, 1, all seams
   doc     .doc fixtures with the FIB fEncrypted bit (0x0100 of the flags word at 0x0A) toggled, both directions; and the
           NEIGHBOUR-BIT family: every other bit of the FibBase header words around it flipped alone (a plain file stays plain, the
           encrypted fixture stays encrypted) and together with fEncrypted (encrypted).  quick: the 16 bits of the flags word, the 8
@@ -567,16 +573,90 @@ def xls_protect_records(v):
     return b"".join(recs[n] for n in XLS_PROTECT if n != "all") if v == "all" else recs[v]
 
 
+PPT_HIST_MAX_QUICK, PPT_HIST_MAX = 2, 3
+
+
+def ppt_histories(nmax):
+    """words over {p, e} of length 1..nmax: the earlier saves of a presentation, oldest first"""
+    return ["".join(w) for n in range(1, nmax + 1) for w in itertools.product("pe", repeat=n)]
+
+
 def build_ppt(fmt, case):
     from verif.gen import pptbin
     opts = {"layout": case["playout"], "current_user": case["cu"]}
     if case["k"] == "enc":
         opts["encrypted"] = case["pmode"]
+    hist = case.get("hist")
+    if opts["current_user"] == "notoken":
+        if case["k"] != "enc" or not hist:
+            return None
+        opts["current_user"] = True
     try:
-        data = pptbin.ppt(text_doc(_tk(), case["doc"]), None, opts)
+        if hist:
+            if any(h not in "pe" for h in hist) or ("e" in hist and case["k"] != "enc"):
+                return None
+            from verif.gen import cfb as _cfb
+            streams = ppt_edit_history(pptbin.ppt_streams(text_doc(_tk(), case["doc"]), None, opts), hist, case["cu"] == "notoken")
+            data = _cfb.cfb(streams, {"clsid": {"": _cfb.CLSID_PPT}})
+        else:
+            data = pptbin.ppt(text_doc(_tk(), case["doc"]), None, opts)
     except NotImplementedError:
         return None
     return {"data": data, "ext": "ppt", "expect": "enc" if case["k"] == "enc" else "plain"}
+
+
+def ppt_edit_history(streams, hist, notoken=False):
+    """The presentation `streams` (pptbin.ppt_streams: persist objects, ONE PersistDirectoryAtom, ONE UserEditAtom) as the result of
+    len(hist) + 1 saves: every earlier save leaves its own PersistDirectoryAtom (the entry of the Document container) and its own
+    UserEditAtom in the "PowerPoint Document" stream - "p": the 28-byte atom of a save without encryption, "e": the 32-byte atom with
+    encryptSessionPersistIdRef - chained through offsetLastEdit ([MS-PPT] 2.3.3, 2.1.2: the CURRENT edit is the one the Current User
+    stream points at, the last one written; the older ones are history).  The final directory + user edit of `streams` are written
+    last and stay what they were, so the final (current) edit alone says whether the file is encrypted.  `notoken`: the Current User
+    stream keeps the plain header token (written by a producer that only updates offsetToCurrentEdit)."""
+    RT_DIR, RT_EDIT = 0x1772, 0x0FF5
+    stream = streams["PowerPoint Document"]
+    # the final UserEditAtom is the tail of the stream: 8 + 28 or 8 + 32 bytes
+    for n in (32, 28):
+        at = len(stream) - 8 - n
+        if at >= 0 and struct.unpack_from("<HHI", stream, at) == (0, RT_EDIT, n):
+            break
+    else:
+        raise AssertionError("no UserEditAtom at the end of the PowerPoint Document stream")
+    body = stream[at + 8:]
+    dir_at = struct.unpack_from("<I", body, 12)[0]
+    if struct.unpack_from("<HH", stream, dir_at) != (0, RT_DIR):
+        raise AssertionError("UserEditAtom does not point at a PersistDirectoryAtom")
+    directory = stream[dir_at:at]
+    first = struct.unpack_from("<II", directory, 8)
+    crypt_ref = body[28:32] if n == 32 else None
+    out = stream[:dir_at]
+    last = 0
+    for h in hist:
+        d_at = len(out)
+        out += struct.pack("<HHI", 0, RT_DIR, 8) + struct.pack("<II", (1 << 20) | (first[0] & 0xFFFFF), first[1])
+        e_at = len(out)
+        b = body[:8] + struct.pack("<II", last, d_at) + body[16:28]
+        if h == "e":
+            if crypt_ref is None:
+                raise NotImplementedError("an encrypted earlier save needs the crypt session of an encrypted file")
+            b += crypt_ref
+        out += struct.pack("<HHI", 0, RT_EDIT, len(b)) + b
+        last = e_at
+    d_at = len(out)
+    out += directory
+    e_at = len(out)
+    out += struct.pack("<HHI", 0, RT_EDIT, n) + body[:8] + struct.pack("<II", last, d_at) + body[16:]
+    res = dict(streams)
+    res["PowerPoint Document"] = out
+    if "Current User" in res:
+        cu = bytearray(res["Current User"])
+        if struct.unpack_from("<I", cu, 16)[0] != at:
+            raise AssertionError("Current User does not point at the final UserEditAtom")
+        struct.pack_into("<I", cu, 16, e_at)
+        if notoken:
+            struct.pack_into("<I", cu, 12, 0xE391C05F)
+        res["Current User"] = bytes(cu)
+    return res
 
 
 def fib_toggle(data: bytes):
@@ -1200,10 +1280,20 @@ def shrinks(case):
             c = dict(case)
             c["cfbcase"] = [tg, "upper"]
             yield c
-    if case.get("declared"):
-        c = dict(case)
-        del c["declared"]
-        yield c
+    if case.get("hist"):                    # fewer earlier saves (none: the single-edit file of the base family)
+        h = case["hist"]
+        for i in range(len(h)):
+            c = dict(case)
+            c["hist"] = h[:i] + h[i + 1:]
+            if not c["hist"]:
+                del c["hist"]
+                if c.get("cu") == "notoken":
+                    continue
+            yield c
+        if case.get("cu") == "notoken":
+            c = dict(case)
+            c["cu"] = False
+            yield c
     if "names" in case:
         for i, kind in enumerate(case["names"]):
             if kind != "t":
@@ -1352,6 +1442,11 @@ def embeds(small, big):
             if v is not None and bf != v and not (v == EPUB_OBFUSCATIONS[0] and bf in EPUB_OBFUSCATIONS):
                 return False
             continue
+        if key == "hist":                   # the small file's earlier saves occur, in order, among the big one's
+            it = iter(big.get("hist", ""))
+            if not all(h in it for h in v):
+                return False
+            continue
         if key == "perm":
             if not set(_perm_cleared(v)) <= set(_perm_cleared(big.get("perm", -4))):
                 return False            # the small case clears a permission bit that the big one does not
@@ -1475,6 +1570,16 @@ def base_cases(tier):
                 for mode in (True, "keep_docprops"):
                     yield "ppt", {"k": "enc", "pmode": mode, "playout": playout, "cu": cu, "doc": d}, all_seams if (d == 0 or not q) else ["direct"]
                 yield "ppt", {"k": "plain", "playout": playout, "cu": cu, "doc": d}, all_seams if (d == 0 or not q) else ["direct"]
+    # ---- PPT saved more than once: earlier user edits (28-byte plain / 32-byte encrypted) before the current one, which alone decides
+    for playout in ("ppt", "lo"):
+        for d in ((0,) if q else (0, 1)):
+            for hist in ppt_histories(PPT_HIST_MAX_QUICK if q else PPT_HIST_MAX):
+                for cu in (True, False, "notoken"):
+                    full = all_seams if (not q or (playout == "ppt" and cu is False and hist in ("p", "e"))) else ["direct"]
+                    for mode in (True, "keep_docprops"):
+                        yield "ppt", {"k": "enc", "pmode": mode, "playout": playout, "cu": cu, "doc": d, "hist": hist}, full
+                    if "e" not in hist and cu != "notoken":
+                        yield "ppt", {"k": "plain", "playout": playout, "cu": cu, "doc": d, "hist": hist}, full
     # ---- DOC fixtures
     for f in DOC_FIXTURES:
         for tg in (False, True):
@@ -1734,6 +1839,9 @@ def run(ctx):
                       "epub_mixed_encryption_xml": "content documents 1..%d x {none, aes128-cbc, aes256-cbc, aes256-gcm, no EncryptionMethod} each x font {none, idpf, adobe, aes256-cbc} x "
                                                    "entry order x namespace spelling x rights.xml (n = 1)" % (2 if ctx.quick else 3),
                       "ooxml_shell": "8 stream subsets x sizes x CFB versions x 3 readers",
+                      "ppt_edit_history": "words over {p (28-byte UserEditAtom), e (32-byte)} of length 1..%d as earlier saves before an encrypted current save "
+                                          "(True / keep_docprops), words over {p} before a plain one; x 2 layouts x Current User {present, absent, plain token} x "
+                                          "documents %s" % ((PPT_HIST_MAX_QUICK, "0") if ctx.quick else (PPT_HIST_MAX, "0, 1")),
                       "xls_stream_spellings": ", ".join(XLS_SPELLINGS) + " x {FILEPASS at index " + ("1, last" if ctx.quick else "every index (small workbook) / 1, last (large)")
                                               + ", 4 other FILEPASS payloads at 1, plain} x {small, large workbook}; look-alike 'all'"
                                               + ("" if ctx.quick else "; 17 neighbour record numbers at 1"),
@@ -1764,6 +1872,10 @@ def run(ctx):
                 "manifest may use any namespace prefix and any XML encoding (UTF-16 with BOM is generated)",
                 "XLS: FILEPASS anywhere in the globals substream (record index 1 .. last before EOF) counts as encrypted, as the quantifier says; "
                 "index 0 (before BOF) is not generated",
+                "PPT: of several UserEditAtoms in the PowerPoint Document stream the CURRENT one (written last, the one the Current User stream "
+                "points at; [MS-PPT] 2.3.3 / 2.1.2) says whether the file is encrypted (32 bytes with encryptSessionPersistIdRef); earlier edits "
+                "are history.  A plain current edit after an ENCRYPTED earlier one is not generated (PowerPoint rewrites the file when the "
+                "password is removed)",
                 "DOC: clearing the FIB bit of the really encrypted fixture leaves cipher text behind: that direction is not judged",
                 "DOC: fEncrypted (bit 8 of the FibBase flags word) is the only field of the FibBase that says 'encrypted' ([MS-DOC] 2.5.2: "
                 "fObfuscated and lKey MUST be ignored when fEncrypted is 0): a plain fixture with any other FibBase bit flipped may fail to "
